@@ -70,6 +70,41 @@ def packOffset (r : Rec) : BitVec 64 :=
     { Partition := BitVec.ofInt 32 r.part, ProducerEpoch := 0, ProducerID := 0,
       LeaderEpoch := BitVec.ofInt 32 r.epoch, Offset := BitVec.ofInt 64 r.offset }
 
+/-! ### topic ids (Plugin.Start) and their resolution (Plugin.Commit)
+
+`Start`: `for i, topic := range Topics { idByTopic[topic] = i }` — a topic listed more than once
+keeps its LAST position. `Assigned` gives that id to the partition's consume loop, which packs it
+into the source id. `Commit`: `Topics[index]` — the position in the raw list. Topics are named by
+an `Int` here (the harness' name id); the list may contain duplicates. -/
+
+/-- `idByTopic[name]` after Start's loop over `topics` (positions counted from `i`) -/
+def topicIDFrom (i : Nat) : List Int → Int → Option Nat
+  | [], _ => none
+  | t :: ts, name =>
+    match topicIDFrom (i + 1) ts name with
+    | some j => some j
+    | none => if t = name then some i else none
+
+def topicID (topics : List Int) (name : Int) : Option Nat := topicIDFrom 0 topics name
+
+/-- `Topics[index]` (`none` = index out of range, a Go panic) -/
+def topicAt (topics : List Int) (idx : Int) : Option Int :=
+  if idx < 0 then none else topics[idx.toNat]?
+
+/-- what the consume loop of a started plugin hands to `In` for a record of topic `r.topic` -/
+def startedSourceID (topics : List Int) (r : Rec) : Option (BitVec 64) :=
+  match topicID topics r.topic with
+  | none => none
+  | some id => some (Gen.KafkaPack.assembleSourceID (BitVec.ofInt 64 (Int.ofNat id)) (BitVec.ofInt 32 r.part))
+
+/-- `Commit` of a started plugin on the packed values: the mark goes to the topic NAME that
+    `Topics[index]` resolves to. `none` = panic. -/
+def commitStarted (topics : List Int) (m : Marks) (sourceID offset : BitVec 64) : Option Marks :=
+  let ip := Gen.KafkaPack.disassembleSourceID sourceID
+  let eo := Gen.KafkaPack.disassembleOffset offset
+  (topicAt topics ip.1.toInt).map fun name =>
+    mark m (name, ip.2.toInt) (eo.Epoch.toInt, eo.Offset.toInt)
+
 /-- marks after each commit of a sequence (direct harness: `c10.marks`) -/
 def commitSeq : Marks → List Rec → List Marks
   | _, [] => []
